@@ -9,6 +9,14 @@ Space: per registered strategy a read-pair class alphabet (gen/c01_reads.py); AL
 plus the one word holding every letter (gzip input), x configurations (paired/single end, rejects on/off,
 joint/per-cell, barcode Hamming expansion 0/1, maxReadPairs None/1/2/3); a phred sweep (every quality
 character = phred p); one long per-cell word that drives the handle limiter through prune + re-open.
+Added by the audit: the empty word (an input file without records); the letters P (barcode mate ends exactly behind
+the barcode+UMI prefix) and L (lower case bases); the file forms of the input (gzip for short words, last record
+without a trailing newline, '+name' separator lines); several strategies selected for one run (-use A,B; judged by
+what both readings of the property demand, see oracles.c01_accounting.check_multi); and demux.py as a script over
+its input and option forms (-n below / at / above a chunk and a lane boundary, two lanes, plain / .fq input, the
+LIB_R1 / LIB.R1 / SRR naming forms, every file named twice, --se, --norejects, -hd 1, -use A,B, two libraries, -merge, --ignore, method
+auto-detection, and the scheduler mode -sched slurm with an sbatch stand-in that runs the generated lane and glue job
+scripts), with the counters of demultiplexing.log compared with the records written.
 Oracle: oracles/c01_accounting.py (the property sentence, by accounting of id tokens; no expected values).
 """
 import contextlib
@@ -24,7 +32,10 @@ from oracles import c01_accounting as O
 ID = 'C01'
 DESIGN_REF = 'DESIGN.md section 3, C01'
 RULE = ('per strategy: every word of length <= 2 over the read-pair class alphabet (+ the word of all letters, '
-        '+ phred sweep words [Qp],[Qp,W],[W,Qp], + one long per-cell word) x configuration, each pushed through '
+        '+ the empty word, + phred sweep words [Qp],[Qp,W],[W,Qp], + one long per-cell word) x configuration; words of '
+        'length <= 2 over the base letters x input file form (gzip / no final newline / +name lines); words of length '
+        '<= 2 over the letters of two or three strategies selected together; demux.py run as a script over its '
+        'input-file and option forms; each pushed through '
         'the real loader loop with real files; states = distinct (strategy, configuration, word); transitions = '
         'read pairs consumed; a case is non-trivial when the run wrote at least one pair to the demultiplexed '
         'output AND at least one to the rejects in the same run (both sinks live, so a lost, doubled or '
@@ -32,14 +43,18 @@ RULE = ('per strategy: every word of length <= 2 over the read-pair class alphab
 ASSUMPTIONS = [
     'well-formed FASTQ input (4-line records, len(seq)==len(qual)), Sanger qualities phred 0..93',
     'library name short enough for the 255 character header limit (overflow belongs to C04)',
-    'one selected strategy per run (as the design states); maxReadPairs >= 1 (demux.py never passes 0)',
+    'maxReadPairs >= 1 (demux.py never passes 0)',
+    'several strategies selected at once: only the clauses both readings of the property share (at least once, at '
+    'most once per selected strategy, mates / order / reject content / counters) - whether a pair two strategies '
+    'accept belongs in the output once or twice is left open by the statement',
+    'command line: libraries of one kind (all lanes paired or all single end), both mates of a lane in one directory',
     'sequencing index parser with Hamming expansion 1 and alias illumina_merged_ThruPlex48S_RP (demux.py defaults)',
     'the 10x whitelist is empty in this snapshot: CHROMC16U12 can only reject',
 ]
 
 LIBRARY = 'L1'
 INDEX_ALIAS = 'illumina_merged_ThruPlex48S_RP'
-QUICK_PHREDS = [0, 40, 41, 51, 52, 53, 93]
+QUICK_PHREDS = [0, 10, 31, 40, 41, 51, 52, 53, 93]      # 10 = '+', 31 = '@': a quality line that looks like a marker line
 LONG_PAIRS = 7000          # 6/7 accepted x 2 mates = 12000 handle-limiter writes > pruneEvery (10000): prune, then re-open (append)
 LONG_STRATEGIES_QUICK = ['CS2C8U6']
 LONG_STRATEGIES_THOROUGH = ['CS2C8U6', 'NLAIII384C8U3', 'scCHIC384C8U3', 'SCARC8R2', 'DamID2_3u4b3u6b', 'TCHIC']
@@ -131,7 +146,12 @@ def bounds(tier):
         'strategies': _STATE['names'],
         'letters_per_strategy': {n: len(alph[n].letters) for n in _STATE['names']},
         'alphabet_example': alph.get('CS2C8U6', next(iter(alph.values()))).letters,
-        'word_lengths': [1, 2, 'all-letters', f'each letter x {REPEAT}'],
+        'word_lengths': [0, 1, 2, 'all-letters', f'each letter x {REPEAT}'],
+        'input_file_forms': {'forms': [f['name'] for f in _file_forms(tier)], 'words': 'length <= 2 over the base letters',
+                             'configurations': len(_phred_configs(tier))},
+        'strategies_selected_together': {'sets': ['+'.join(m) for m in _multi_sets()], 'letters_per_member': MULTI_LETTERS,
+                                         'word_lengths': [0, 1, 2], 'configurations': len(_configs(tier))},
+        'command_line_forms': list(_cli_forms(tier)),
         'configurations': len(_configs(tier)),
         'configuration_axes': {'end': ['pe', 'se'], 'rejects': [True, False], 'out': ['joint', 'percell'], 'hd': [0, 1],
                                'maxReadPairs': [None, 1, 2, 3],
@@ -145,6 +165,43 @@ def bounds(tier):
 
 REPEAT = 40
 CLI_INPUT_FORMS = ('args-sorted', 'args-shuffled', 'listfile-sorted', 'listfile-mates-in-different-order', 'args-percell-rerun')
+# how the input files are written (words of length <= 2 over the base letters); the plain, newline terminated, '+' form
+# is what every other shard uses
+FILE_FORMS = [
+    {'name': 'gz', 'gz': True},
+    {'name': 'no-final-newline', 'nonl': True},
+    {'name': 'plus-name', 'plus': True},
+    {'name': 'fq.gz+no-final-newline+plus-name', 'gz': True, 'nonl': True, 'plus': True, 'fq': True},
+]
+# strategies selected together (demux.py -use A,B): the documented combination, two that accept the same reads, two
+# that share a whitelist, two that exclude each other, and a triple
+MULTI_SETS = [('MSPJIC8U3', 'CS2C8U6'), ('CS2C8U6', 'CS2C8U6NH'), ('NLAIII384C8U3', 'scCHIC384C8U3'),
+              ('CS2C8U6', 'NLAIII384C8U3'), ('CS2C8U6', 'MSPJIC8U3', 'NLAIII384C8U3')]
+MULTI_LETTERS = ['W', 'M', 'U', 'S', 'E']
+# demux.py forms added by the audit: name -> tier in which it starts to run
+CLI_MORE = {
+    'n-at-chunk-boundary': 'quick', 'n-inside-second-chunk': 'quick', 'two-lanes-n-inside-second-lane': 'quick',
+    'plain-fastq': 'quick', 'name-LIB_R1': 'quick', 'single-end': 'quick', 'norejects': 'quick', 'use-two': 'quick',
+    'two-libraries': 'quick', 'sched-lane-jobs': 'quick', 'two-lanes-n-at-lane-boundary': 'quick',
+    'args-duplicated': 'quick',
+    'n-inside-first-chunk': 'thorough', 'n-above-total': 'thorough', 'two-lanes': 'thorough',
+    'fq-gz': 'thorough', 'fq-plain': 'thorough', 'name-LIB.R1': 'thorough',
+    'name-SRR': 'thorough', 'single-end-n': 'thorough', 'hd1': 'thorough', 'merge-two-samples': 'thorough',
+    'ignore-orphan': 'thorough', 'autodetect': 'thorough', 'percell-norejects': 'thorough', 'sched-nochunk': 'thorough',
+}
+
+
+def _file_forms(tier):
+    # quick: the newline form alone and all three forms together; thorough: every form alone as well
+    return [FILE_FORMS[1], FILE_FORMS[3]] if tier == 'quick' else list(FILE_FORMS)
+
+
+def _multi_sets():
+    return [m for m in MULTI_SETS if all(n in _STATE['names'] for n in m)]
+
+
+def _cli_forms(tier):
+    return list(CLI_INPUT_FORMS) + [n for n, t in CLI_MORE.items() if t == 'quick' or tier != 'quick']
 
 
 def shards(tier):
@@ -162,11 +219,22 @@ def shards(tier):
     # the command line itself (demux.py run as a script in a fresh interpreter): how the input files are given
     for how in CLI_INPUT_FORMS:
         out.append(('cli', 'CS2C8U6', how))
+    # audit additions (appended so that the shards above keep their groups)
+    for how in _cli_forms(tier)[len(CLI_INPUT_FORMS):]:
+        # the single-end forms use a strategy that accepts single-end reads
+        out.append(('cli', 'NLAIII384C8U3SE' if how.startswith('single-end') else 'CS2C8U6', how))
+    for n in _STATE['names']:
+        for c in _phred_configs(tier):
+            out.append(('fileform', n, c))
+    for m in _multi_sets():
+        for c in _configs(tier):
+            out.append(('multi', list(m), c))
     return out
 
 
 def _words(short):
     letters = _STATE['alph'][short].letters
+    yield []              # an input file without a single record (an empty lane chunk)
     for a in letters:
         yield [a]
     for a in letters:
@@ -178,6 +246,36 @@ def _words(short):
         yield [a] * REPEAT
 
 
+def _base_words(short):
+    letters = _STATE['alph'][short].base_letters
+    yield []
+    for a in letters:
+        yield [a]
+    for a in letters:
+        for b in letters:
+            yield [a, b]
+
+
+def _multi_letters(members):
+    out = []
+    for i, n in enumerate(members):
+        a = _STATE['alph'][n]
+        for l in MULTI_LETTERS:
+            if l in a.base_letters and (l in a.bc or l in ('S', 'E')):
+                out.append(f'{i}:{l}')
+    return out
+
+
+def _multi_words(members):
+    letters = _multi_letters(members)
+    yield []
+    for a in letters:
+        yield [a]
+    for a in letters:
+        for b in letters:
+            yield [a, b]
+
+
 def _long_word(short):
     a = _STATE['alph'][short]
     cyc = ['W', 'W2', 'W3', 'W', 'W2', 'W3', 'U'] if 'W2' in a.bc and 'U' in a.bc else ['W', 'W', 'W', 'S']
@@ -186,6 +284,13 @@ def _long_word(short):
 
 # ------------------------------------------------------------------------------------------------ one run
 def _inputs(short, word):
+    if isinstance(short, (list, tuple)):
+        # several strategies: a letter is '<member index>:<letter of that member's alphabet>'
+        out = []
+        for k, letter in enumerate(word):
+            i, l = letter.split(':', 1)
+            out.append(_STATE['alph'][short[int(i)]].pair(l, k))
+        return out
     a = _STATE['alph'][short]
     return [a.pair(letter, k) for k, letter in enumerate(word)]
 
@@ -193,9 +298,11 @@ def _inputs(short, word):
 def run_case(case, workdir=None):
     """Run ONE case on the real loader; -> (violations [(signature, detail)], fates, processed)."""
     setup()
-    short, cfg = case['strategy'], case['config']
+    multi = 'strategies' in case
+    short, cfg = (list(case['strategies']) if multi else case['strategy']), case['config']
     word = case['word'] if 'word' in case else _long_word(short)
-    gz = bool(case.get('gz'))
+    form = case.get('form') or {}
+    gz = bool(case.get('gz')) or bool(form.get('gz'))
     max_handles = case.get('maxHandles', 500)
     paired = cfg['end'] == 'pe'
     percell = cfg['out'] == 'percell'
@@ -208,8 +315,9 @@ def run_case(case, workdir=None):
     try:
         files = []
         for mi in range(2 if paired else 1):
-            p = os.path.join(d, f'in_R{mi + 1}.fastq' + ('.gz' if gz else ''))
-            text = G.fastq_text([pr[mi] for pr in inputs])
+            p = os.path.join(d, f'in_R{mi + 1}' + ('.fq' if form.get('fq') else '.fastq') + ('.gz' if gz else ''))
+            text = G.fastq_text([pr[mi] for pr in inputs], plus_header=bool(form.get('plus')),
+                                final_newline=not form.get('nonl'))
             if gz:
                 import gzip
                 with gzip.open(p, 'wt', compresslevel=1) as f:
@@ -223,7 +331,7 @@ def run_case(case, workdir=None):
         pd, pr_ = os.path.join(odir, 'demultiplexed'), os.path.join(odir, 'rejects')
         FastqHandle = _STATE['FastqHandle']
         loader = _STATE['loaders'][cfg['hd']]
-        strategy = _strategy(cfg['hd'], short)
+        strategies = [_strategy(cfg['hd'], n) for n in short] if multi else [_strategy(cfg['hd'], short)]
         log = io.StringIO()
         exc = None
         processed, yields = None, {}
@@ -234,7 +342,7 @@ def run_case(case, workdir=None):
                 # the rejects handle is always joint
                 target = FastqHandle(pd, paired, single_cell=percell, maxHandles=max_handles)
                 reject = FastqHandle(pr_, paired) if cfg['rejects'] else None
-                processed, yields = loader.demultiplex(files, strategies=[strategy], targetFile=target,
+                processed, yields = loader.demultiplex(files, strategies=strategies, targetFile=target,
                                                        rejectHandle=reject, log_handle=log, library=LIBRARY,
                                                        maxReadPairs=cfg['max'])
             except Exception as e:           # the loader loop itself gave up: every remaining pair is lost
@@ -247,18 +355,24 @@ def run_case(case, workdir=None):
                         except Exception as e:
                             exc = exc or e
         ctx = cfg['end'] + (':percell' if percell else '') + ('' if cfg['rejects'] else ':norejects')
+        if multi:
+            ctx = f'{len(short)}-strategies:' + ctx
         if exc is not None:
             return ([(f'loader:exception:{type(exc).__name__}:{ctx}',
                       {'exception': repr(exc), 'input_R1': G.fastq_text([p[0] for p in inputs[:3]])})],
                     ['!'] * len(inputs), 0)
         out = O.collect(pd, pr_, paired, percell, cfg['rejects'])
-        raw, fates = O.check(inputs, paired, percell, cfg['rejects'], cfg['max'], short, processed, dict(yields),
-                             log.getvalue(), out)
+        if multi:
+            raw, fates = O.check_multi(inputs, paired, percell, cfg['rejects'], cfg['max'], short, processed,
+                                       dict(yields), log.getvalue(), out)
+        else:
+            raw, fates = O.check(inputs, paired, percell, cfg['rejects'], cfg['max'], short, processed, dict(yields),
+                                 log.getvalue(), out)
         viols, seen = [], set()
         for clause, pos, detail in raw:
             sig = f'{clause}:{ctx}'
             if pos is not None:
-                sig += ':' + G.letter_kind(word[pos])
+                sig += ':' + G.letter_kind(word[pos].split(':', 1)[1] if multi else word[pos])
             if sig in seen:
                 continue
             seen.add(sig)
@@ -355,12 +469,269 @@ def run_cli(short, how):
     finally:
         shutil.rmtree(d, ignore_errors=True)
 
+# ------------------------------------------------------------------------------------------------ demux.py forms
+CLI_WORD = ['W', 'U', 'W2', 'W', 'W3', 'S', 'W', 'W2', 'U', 'W', 'W3', 'T']
+
+
+def _cli_scenario(how, short):
+    """-> dict(groups=[(library key, [pairs], file stem, style)], ext, end, opts, n, strategies, percell, rejects, sched)
+    A group is one set of mate files (a lane chunk).  Pairs are numbered in the order demux.py has to process them
+    (libraries, lanes and chunks in sorted file order), so 'input order' is the id order inside every library."""
+    a = _STATE['alph'][short]
+    sc = {'ext': '.fastq.gz', 'end': 'pe', 'opts': [], 'n': None, 'strategies': [short], 'percell': False,
+          'rejects': True, 'sched': None, 'use': True, 'orphan': False, 'dup': False}
+    word = [w for w in CLI_WORD if w in a.letters or w in a.bc] or ['W'] * 12
+    layout = 'one-lane'
+    if how.startswith('n-') or how.startswith('two-lanes'):
+        sc['n'] = {'n-inside-first-chunk': 4, 'n-at-chunk-boundary': 6, 'n-inside-second-chunk': 8, 'n-above-total': 20,
+                   'two-lanes': None, 'two-lanes-n-inside-second-lane': 7, 'two-lanes-n-at-lane-boundary': 6}[how]
+        if how.startswith('two-lanes'):
+            layout = 'two-lanes'
+    elif how in ('plain-fastq', 'fq-gz', 'fq-plain'):
+        sc['ext'] = {'plain-fastq': '.fastq', 'fq-gz': '.fq.gz', 'fq-plain': '.fq'}[how]
+    elif how.startswith('name-'):
+        layout = how
+    elif how in ('single-end', 'single-end-n'):
+        sc['end'] = 'se'
+        sc['opts'] = ['--se']
+        if how == 'single-end-n':
+            sc['n'] = 8
+    elif how == 'norejects':
+        sc['opts'], sc['rejects'] = ['--norejects'], False
+    elif how == 'percell-norejects':
+        sc['opts'], sc['rejects'], sc['percell'] = ['--norejects', '--scsepf'], False, True
+    elif how == 'hd1':
+        sc['opts'] = ['-hd', '1']
+        if 'M' in a.bc:
+            word = [('M' if i in (1, 7) else w) for i, w in enumerate(word)]
+    elif how == 'use-two':
+        sc['strategies'] = [short, 'MSPJIC8U3']
+    elif how == 'two-libraries':
+        layout = 'two-libraries'
+    elif how == 'merge-two-samples':
+        layout = 'merge'
+    elif how == 'ignore-orphan':
+        sc['opts'], sc['orphan'] = ['--ignore'], True
+    elif how == 'autodetect':
+        sc['use'] = False
+    elif how == 'args-duplicated':
+        sc['dup'] = True            # every file named twice on the command line: still each pair once
+    elif how == 'sched-lane-jobs':
+        layout, sc['sched'] = 'two-lanes', 'chunked'
+    elif how == 'sched-nochunk':
+        layout, sc['sched'], sc['opts'] = 'two-lanes', 'nochunk', ['--nochunk']
+    else:
+        raise bind.HarnessError(f'unknown command line form {how}')
+    if how == 'use-two':
+        b = _STATE['alph']['MSPJIC8U3']
+        pairs = [(b if i % 3 == 1 else a).pair(w if (i % 3 != 1 or w in b.bc or w in b.letters) else 'W', i)
+                 for i, w in enumerate(word)]
+    else:
+        pairs = [a.pair(w, i) for i, w in enumerate(word)]
+    n = len(pairs)
+    if layout == 'one-lane':
+        groups = [('LIB', pairs[:n // 2], 'LIB_L001_R{m}_001', 0), ('LIB', pairs[n // 2:], 'LIB_L001_R{m}_002', 0)]
+    elif layout == 'two-lanes':
+        q = n // 4
+        groups = [('LIB', pairs[:q], 'LIB_L001_R{m}_001', 0), ('LIB', pairs[q:2 * q], 'LIB_L001_R{m}_002', 0),
+                  ('LIB', pairs[2 * q:3 * q], 'LIB_L002_R{m}_001', 0), ('LIB', pairs[3 * q:], 'LIB_L002_R{m}_002', 0)]
+    elif layout == 'two-libraries':
+        q = n // 4
+        groups = [('A', pairs[:q], 'LIBA_L001_R{m}_001', 0), ('A', pairs[q:2 * q], 'LIBA_L001_R{m}_002', 0),
+                  ('B', pairs[2 * q:3 * q], 'LIBB_L001_R{m}_001', 0), ('B', pairs[3 * q:], 'LIBB_L001_R{m}_002', 0)]
+    elif layout == 'merge':
+        # two samples whose names differ behind the first '_': the default -merge _ makes them one library
+        groups = [('LIB', pairs[:n // 2], 'LIB_a_L001_R{m}_001', 0), ('LIB', pairs[n // 2:], 'LIB_b_L001_R{m}_001', 0)]
+    elif layout == 'name-LIB_R1':
+        groups = [('LIB', pairs, 'LIB_R{m}', 0)]
+    elif layout == 'name-LIB.R1':
+        groups = [('LIB', pairs, 'LIB.R{m}', 0)]
+    elif layout == 'name-SRR':
+        groups = [('LIB', pairs, 'SRR123_{m}', 0)]
+    else:
+        raise bind.HarnessError(f'unknown layout {layout}')
+    sc['groups'] = groups
+    return sc
+
+
+def _write_fastq(path, records):
+    import gzip
+    text = G.fastq_text(records)
+    if path.endswith('.gz'):
+        with gzip.open(path, 'wt', compresslevel=1) as f:
+            f.write(text)
+    else:
+        with open(path, 'w') as f:
+            f.write(text)
+
+
+_SBATCH = """#!/bin/sh
+# stand-in for the scheduler: runs the submitted job script at once (jobs are submitted in dependency order)
+for a in "$@"; do f="$a"; done
+n=$(cat "$C01_JOBS/count" 2>/dev/null || echo 0); n=$((n+1)); echo $n > "$C01_JOBS/count"
+if ! sh "$f" > "$f.log" 2>&1; then echo "$f" >> "$C01_JOBS/failed"; fi
+echo "Submitted batch job $n"
+"""
+
+
+def run_cli2(short, how):
+    """demux.py as a script, forms added by the audit; -> (violations, fates)"""
+    import glob
+    import subprocess
+    import sys
+    setup()
+    try:
+        sc = _cli_scenario(how, short)
+    except G.GeneratorError as e:
+        raise bind.HarnessError(f'C01 generator: {e}')
+    paired = sc['end'] == 'pe'
+    d = tempfile.mkdtemp(prefix='c01cli_', dir='/dev/shm')
+    try:
+        ind = os.path.join(d, 'in')
+        os.mkdir(ind)
+        argv = []
+        for lib, prs, stem, _ in sc['groups']:
+            for mi in range(2 if paired else 1):
+                p = os.path.join(ind, stem.format(m=mi + 1) + sc['ext'])
+                _write_fastq(p, [pr[mi] for pr in prs])
+                argv.append(p)
+        if sc['orphan']:
+            # a lane of another sample whose second mate file is missing; --ignore tells demux.py to leave it out
+            a = _STATE['alph'][short]
+            p = os.path.join(ind, 'OTHER_L001_R1_001' + sc['ext'])
+            _write_fastq(p, [a.pair('W', 50 + i)[0] for i in range(3)])
+            argv.append(p)
+        argv = sorted(argv, reverse=True)       # demux.py sorts its arguments itself
+        if sc['dup']:
+            argv = argv + argv
+        out = os.path.join(d, 'out')
+        script = os.path.join(bind.REPO, 'singlecellmultiomics', 'modularDemultiplexer', 'demux.py')
+        env = dict(os.environ, PYTHONPATH=bind.REPO)
+        opts = list(sc['opts']) + (['-use', ','.join(sc['strategies'])] if sc['use'] else []) + ['-o', out]
+        if sc['n'] is not None:
+            opts += ['-n', str(sc['n'])]
+        if sc['sched'] is None:
+            cmd = [sys.executable, script] + argv + ['--y'] + opts
+        else:
+            # the installed form of the script (executable, interpreter in the shebang line) and an sbatch stand-in
+            bindir = os.path.join(d, 'bin')
+            os.mkdir(bindir)
+            src = open(script).read().split('\n')
+            if src and src[0].startswith('#!'):
+                src = src[1:]
+            inst = os.path.join(bindir, 'demux.py')
+            with open(inst, 'w') as f:
+                f.write(f'#!{sys.executable}\n' + '\n'.join(src))
+            os.chmod(inst, 0o755)
+            with open(os.path.join(bindir, 'sbatch'), 'w') as f:
+                f.write(_SBATCH)
+            os.chmod(os.path.join(bindir, 'sbatch'), 0o755)
+            jobs = os.path.join(d, 'jobs')
+            os.mkdir(jobs)
+            env.update(PATH=bindir + os.pathsep + os.path.dirname(sys.executable) + os.pathsep + env.get('PATH', ''),
+                       C01_JOBS=jobs)
+            cmd = [inst] + argv + opts + ['-sched', 'slurm']
+        r = subprocess.run(cmd, capture_output=True, text=True, env=env, cwd=d, timeout=900)
+        if r.returncode != 0:
+            return [(f'cli:{how}:demux.py-exit-{r.returncode}', r.stderr[-600:])], []
+        if sc['sched'] is not None and os.path.exists(os.path.join(d, 'jobs', 'failed')):
+            failed = open(os.path.join(d, 'jobs', 'failed')).read().split()
+            tail = open(failed[0] + '.log').read()[-600:] if failed and os.path.exists(failed[0] + '.log') else ''
+            return [(f'cli:{how}:submitted-job-failed', {'jobs': [os.path.basename(x) for x in failed], 'log': tail})], []
+        libdirs = sorted(x for x in (os.listdir(out) if os.path.isdir(out) else []) if os.path.isdir(os.path.join(out, x)))
+        libdirs = [x for x in libdirs if x != 'cluster']
+        # which output directory belongs to which input library: the one that holds records of it
+        libs = []
+        for lib, prs, _, _ in sc['groups']:
+            if lib not in [l for l, _ in libs]:
+                libs.append((lib, []))
+            dict(libs)[lib].extend(prs)
+        if not libdirs:
+            return [(f'cli:{how}:no-output-directory', {'stdout': r.stdout[-300:]})], []
+        viols, seen, all_fates = [], set(), []
+
+        def add(clause, detail):
+            sig = f'cli:{how}:{clause}'
+            if sig not in seen:
+                seen.add(sig)
+                viols.append((sig, detail))
+
+        per_dir = {}
+        for x in libdirs:
+            pref = ''
+            if sc['sched'] == 'nochunk':
+                # a job that is not split in lanes still gets a group id: its outputs keep the <id>_TEMP_ prefix
+                cands = sorted({os.path.basename(f).split('demultiplexed')[0] for f in glob.glob(os.path.join(out, x, '*demultiplexed*'))})
+                if len(cands) == 1:
+                    pref = cands[0]
+            per_dir[x] = (pref, O.collect(os.path.join(out, x, pref + 'demultiplexed'), os.path.join(out, x, pref + 'rejects'),
+                                          paired, sc['percell'], sc['rejects']))
+        assigned = {x: [] for x in libdirs}
+        for lib, prs in libs:
+            ids = {O.ident(pr[0][0]) for pr in prs}
+            home = None
+            for x in libdirs:
+                res = per_dir[x][1]
+                found = set()
+                for files in list(res.dem.values()) + ([res.rej] if res.rej else []):
+                    for recs in files.values():
+                        found.update(O.ident(rec[0]) for rec in recs)
+                if ids & found:
+                    home = x
+                    break
+            assigned[home if home is not None else libdirs[0]].extend(prs)
+        k = len(sc['strategies'])
+        for x in libdirs:
+            pref, res = per_dir[x]
+            inputs = assigned[x]
+            logp = os.path.join(out, x, pref + 'demultiplexing.log')
+            log_text = open(logp).read() if os.path.exists(logp) else ''
+            runs = O.parse_cli_log(log_text)
+            processed = sum(b[0] for run in runs for b in run['blocks'])
+            yields = {}
+            for run in runs:
+                for b in run['blocks']:
+                    for s_, c in b[1].items():
+                        yields[s_] = yields.get(s_, 0) + c
+            if not sc['use']:
+                names = [s_ for s_ in yields] or [short]       # whatever the auto-detection selected (at most one method)
+                k = max(1, len(names))
+            else:
+                names = sc['strategies']
+            # in scheduler mode with lane jobs -n is a per-job option; it is not combined with it here
+            if k == 1:
+                raw, fates = O.check(inputs, paired, sc['percell'], sc['rejects'], sc['n'], names[0], processed, yields,
+                                     f'processed {processed} read pairs\nStrategy\tReads\n' +
+                                     ''.join(f'{s_}\t{c}\n' for s_, c in yields.items()), res)
+            else:
+                raw, fates = O.check_multi(inputs, paired, sc['percell'], sc['rejects'], sc['n'], names, processed, yields,
+                                           None, res)
+            for clause, pos, detail in raw:
+                add(clause, {'what': detail, 'fates': ''.join(fates), 'directory': x})
+            # the log of the run(s): every block is followed by the running total, the last line says finished
+            if not runs:
+                add('log-without-a-run', {'log': log_text[-300:]})
+            for run in runs:
+                tot = 0
+                sums = []
+                for b in run['blocks']:
+                    tot += b[0]
+                    sums.append(tot)
+                if run['cumulative'] != sums:
+                    add('log-running-total-differs-from-blocks', {'running_totals': run['cumulative'], 'block_sums': sums})
+                if not run['finished']:
+                    add('log-not-finished', {'log': log_text[-300:]})
+            all_fates += fates
+        return viols, all_fates
+    finally:
+        shutil.rmtree(d, ignore_errors=True)
+
 
 def run_shard(shard, tier, acc):
     setup()
     if shard[0] == 'cli':
         case = {'cli': shard[2], 'strategy': shard[1]}
-        viols, fates = run_cli(shard[1], shard[2])
+        viols, fates = run_cli(shard[1], shard[2]) if shard[2] in CLI_INPUT_FORMS else run_cli2(shard[1], shard[2])
         acc.case(case, transitions=len(fates), nontrivial=True, outcome=f"cli:{shard[2]}:{''.join(fates)[:14]}")
         for sig, d in viols:
             acc.violation(sig, case, d)
@@ -379,16 +750,26 @@ def run_shard(shard, tier, acc):
             cases = gen()
         elif kind == 'long':
             cases = [{'strategy': short, 'config': dict(DEFAULT, out='percell'), 'long': LONG_PAIRS, 'maxHandles': 2}]
+        elif kind == 'fileform':
+            cases = ({'strategy': short, 'config': cfg, 'word': w, 'form': f} for f in _file_forms(tier) for w in _base_words(short))
+        elif kind == 'multi':
+            cases = ({'strategies': short, 'config': cfg, 'word': w} for w in _multi_words(short))
         else:
             raise bind.HarnessError(f'unknown shard kind {kind}')
         for case in cases:
             viols, fates, processed = run_case(case, workdir=d)
-            acc.case(case, transitions=max(processed or 0, 1), nontrivial=('A' in fates and 'R' in fates),
-                     outcome=_outcome(case['config'], fates))
+            live = set(fates)
+            acc.case(case, transitions=max(processed or 0, 1),
+                     nontrivial=(('A' in live or 'B' in live) and ('R' in live or 'B' in live)),
+                     outcome=(f'{kind}:' if kind in ('fileform', 'multi') else '') + _outcome(case['config'], fates))
             acc.count('pairs_demultiplexed', fates.count('A'))
             acc.count('pairs_rejected', fates.count('R'))
+            if kind == 'multi':
+                acc.count('pairs_in_both_sinks_with_several_strategies', fates.count('B'))
+            if kind == 'fileform':
+                acc.count('file_form:' + case['form']['name'], 1)
             if 'A' in fates:
-                acc.count(f'accepting:{short}', 1)
+                acc.count(f'accepting:{"+".join(short) if kind == "multi" else short}', 1)
             if kind == 'long':
                 acc.count('long_word_handle_limiter_writes', 2 * fates.count('A'))
             for sig, detail in viols:
@@ -399,7 +780,7 @@ def run_shard(shard, tier, acc):
 
 def replay(case):
     if 'cli' in case:
-        return run_cli(case['strategy'], case['cli'])[0]
+        return (run_cli if case['cli'] in CLI_INPUT_FORMS else run_cli2)(case['strategy'], case['cli'])[0]
     if 'long' in case and case['long'] != LONG_PAIRS:
         raise bind.HarnessError('long word length changed since the replay was recorded')
     viols, _, _ = run_case(case)
